@@ -65,6 +65,9 @@ var c15Exprs = []c15Expr{
 	{"unterminated-literal", false, func(p string) string { return "../" + p + "name = 'a" }, func(p string) string { return "/" + p + "tgt[" + p + "name='a]" }},
 	{"malformed-number", false, func(p string) string { return "../" + p + "name = 1.2.3" }, func(p string) string { return "/" + p + "tgt/1" }},
 	{"relative-descendant-path", true, func(p string) string { return p + "name" }, nil},
+	// NameTest ::= '*' | NCName ':' '*' | QName: the prefix of a wildcard is a prefix like any other
+	{"prefixed-wildcard", true, func(p string) string { return "count(../" + p + "*) > 0" }, nil},
+	{"prefixed-wildcard-step", true, func(p string) string { return "../" + p + "*/" + p + "name = 'a'" }, nil},
 	// leafref only: RFC 6020 path-arg shapes around the key predicate
 	{"leafref-key-predicate", true, nil, func(p string) string { return "/" + p + "tgt[" + p + "name = current()/../" + p + "name]/" + p + "name" }},
 	{"leafref-keyexpr-without-up-step", false, nil, func(p string) string { return "/" + p + "tgt[" + p + "name = current()/" + p + "name]/" + p + "name" }},
